@@ -53,6 +53,7 @@ class Prop(object):
         u.append(('encrypted', {}))
         for comp in (0, 1, 2, 3):
             u.append(('foreign', {'comp': comp}))
+        u.append(('gpg', {}))
         return u
 
     def run_case(self, check, case):
@@ -315,6 +316,52 @@ class Prop(object):
                         if probs:
                             r.viol('encrypted', {'part': 'encrypted', 'mode': mode, 'flag': any('flag' in p for p in probs)}, case, label + ': ' + '; '.join(probs[:3]))
         r.samples.append({'modes': ['sign-then-encrypt', 'encrypt-then-sign']})
+        return r
+
+    def c_gpg(self, case):
+        """Signed messages written by GnuPG 2.2.40 (1 and 3 signers, compressed / uncompressed, armored): import, verify, re-export."""
+        import pgpy
+        from mc import gpgfix as G
+        r = Res()
+        if not G.available():
+            r.states = r.transitions = 1
+            r.outcomes['gpg-vectors-absent'] += 1
+            return r
+        pubs = {}
+        for n in G.NAMES:
+            k = pgpy.PGPKey.from_blob(G.read('key.%s.pub.gpg' % n))[0]
+            pubs[str(k.fingerprint.keyid)] = k
+            for sk in k.subkeys:
+                pubs[sk] = k
+        for f in G.files('signed.*'):
+            r.states += 1
+            r.transitions += 1
+            probs = []
+            try:
+                blob = G.binary(f)
+                rec = rmsg.recognise(blob)
+                m = pgpy.PGPMessage.from_blob(G.read(f))
+                if bytes(m._message._contents) != rec['literal']['data']:
+                    probs.append('content octets differ from the independent parser\'s')
+                if m.filename.encode('utf-8') != rec['literal']['name'] or int(m._message.mtime.timestamp()) != rec['literal']['time'] or m._message.format != rec['literal']['format']:
+                    probs.append('literal metadata differs')
+                if int(m._compression) != (rec['compression'] or 0):
+                    probs.append('compression %r vs %r' % (m._compression, rec['compression']))
+                if sorted(wire.read_packet(bytes(s))['body'] for s in m.signatures) != sorted(rec['sigs']):
+                    probs.append('signature multiset differs')
+                for s in m.signatures:
+                    if not pubs[s.signer].verify(m):
+                        probs.append('signature by %s does not verify' % s.signer)
+                p2, rec2 = self._grammar(bytes(m), len(rec['sigs']), rec['compression'] or 0, f)
+                probs += ['re-export: ' + x for x in p2]
+                if rec2 is not None and not p2 and rec2['literal'] != rec['literal']:
+                    probs.append('re-export changes the literal packet fields')
+            except Exception as e:
+                probs.append(repr(e))
+            r.outcomes['gpg:' + ('ok' if not probs else 'violation')] += 1
+            if probs:
+                r.viol('gpg', {'kind': 'gpg-signed-message'}, dict(case, only=f), 'GnuPG-made signed message %s: %s' % (f, '; '.join(probs[:3])))
+        r.samples.append({'gpg_signed_messages': len(G.files('signed.*'))})
         return r
 
     def c_foreign(self, case):
